@@ -37,4 +37,11 @@ def first : List UInt8 → Except Exc Int
   | [] => .error .indexError
   | b :: _ => .ok (b.toNat : Int)
 
+/-- what a translated method does to the client, one step at a time: a call of another method (by name, with its integer /
+boolean arguments) or the assignment of an integer (enum member, timestamp) to an attribute -/
+inductive MEff where
+  | call (name : String) (args : List Int)
+  | setInt (attr : String) (v : Int)
+  deriving DecidableEq, Repr
+
 end Paho.Py
